@@ -671,6 +671,25 @@ def fam_recerr(rnd, i):
              call(w, "add", ("r",), sp, recurse=True), drain(w)]
     d = rnd.choice([("r",), ("r", "sub")])
     x = d + ("x",)
+    shape = rnd.random()
+    if shape < 0.15:
+        # a recursive Add that fails - the root is a regular file, or missing: it returns its error, nothing is left behind, and
+        # every later call comes back
+        bad = rnd.choice([("r", "plain"), ("r", "nope"), ("r", "sub", "plain")])
+        steps += [fs("create", ("r", "plain")), fs("create", ("r", "sub", "plain")), drain(w), call(w, "add", bad, sp, recurse=True),
+                  call(w, "watchlist"), fs("create", ("r", "sub", "f1")), drain(w), call(w, "remove", ("r", "nothere"), "rel"), obs(w),
+                  call(w, "close"), drain(w), obs(w), {"s": "recurse", "recurse": False}]
+        return steps
+    if shape < 0.30:
+        # Remove of the tree while several of its directories have just been deleted (the reader is parked, nobody looks at
+        # Errors): whatever inotify_rm_watch answers for the vanished ones, Remove returns
+        subs = [("r", "g%d" % k) for k in range(rnd.randint(2, 4))]
+        steps += [st for g in subs for st in (fs("mkdir", g), drain(w))]
+        steps += [fs("create", ("r", "f0")), fs("chmod", ("r", "f0"))] + [fs("rmdir", g) for g in subs[:rnd.randint(2, len(subs))]]
+        steps += [{"s": "drain", "w": w, "only": "ev", "max": 1}, call(w, "remove", ("r",), sp, recurse=True), call(w, "watchlist"),
+                  call(w, "add", ("r", "sub"), "rel"), drain(w), obs(w), fs("create", ("r", "after")), drain(w),
+                  call(w, "close"), drain(w), obs(w), {"s": "recurse", "recurse": False}]
+        return steps
     # an earlier event holds the reader back (nobody is receiving)
     steps += [fs("create", d + ("f0",)), fs("chmod", d + ("f0",)), fs("chmod", d + ("f0",))]
     if rnd.random() < 0.4:
@@ -829,6 +848,60 @@ def fam_reops(rnd, i):
     return steps
 
 
+def fam_slowpair(rnd, i, ms=3300):
+    """The consumer is away for seconds while the reader is parked between the two halves of a move (sending the Rename):
+    the Create that follows must still name the old path - nothing the library remembers may expire by wall-clock time."""
+    w = "w1"
+    cap = rnd.choice([0, 0, 1, 2])
+    steps = [fs("mkdir", ("d1",)), fs("mkdir", ("d2",)), fs("create", ("d1", "a")), new(w, cap), call(w, "add", ("d1",), "rel")]
+    two = rnd.random() < 0.5
+    if two:
+        steps.append(call(w, "add", ("d2",), "rel"))
+    steps += [fs("create", ("d1", "p%d" % k)) for k in range(cap)]          # the buffer is exactly full when the Rename is to be sent
+    steps += [fs("rename", ("d1", "a"), to=(("d2", "b") if two else ("d1", "b"))), {"s": "sleep", "n": ms}, drain(w)]
+    steps += [fs("rename", (("d2", "b") if two else ("d1", "b")), to=("d1", "c")), drain(w), obs(w)]
+    steps += epilogue(w)
+    return steps
+
+
+def fam_capsweep(rnd, i):
+    """One history, several Watchers that differ only in their buffer size, nobody receiving until the end (C14): entry names
+    of 240-255 bytes (one kernel record is then larger than 16 record headers), a move whose Rename finds each buffer
+    exactly full for one of the sizes, the consumer away for more than a second."""
+    caps = [0, 1, 2] + rnd.sample([4, 8, 14, 16, 64, 1024], 2)
+    ws = ["w%d" % (k + 1) for k in range(len(caps))]
+    steps = [fs("mkdir", ("d1",)), fs("create", ("d1", "a"))]
+    for w, c in zip(ws, caps):
+        steps += [new(w, c), call(w, "add", ("d1",), "rel")]
+    long1 = "NL%d" % rnd.choice([240, 241, 247, 248, 254, 255])
+    j = rnd.choice([0, 1, 2])
+    ops = [fs("create", ("d1", "q%d" % k)) for k in range(j)]
+    ops += [fs("rename", ("d1", "a"), to=("d1", "b"))]
+    tail = [fs("create", ("d1", long1)), fs("write", ("d1", long1)), fs("chmod", ("d1", "b")), fs("rename", ("d1", long1), to=("d1", "NL250")), fs("unlink", ("d1", "b"))]
+    if rnd.random() < 0.5:
+        steps += ops + [{"s": "sleep", "n": 1200}] + tail
+    else:
+        steps += tail[:2] + ops + tail[2:]
+    for w in ws:
+        steps += [drain(w), obs(w)]
+    for w in ws:
+        steps += [call(w, "close"), drain(w), obs(w)]
+    return steps
+
+
+def fam_rootwatch(rnd, i):
+    """The watched directory is the file system root, spelled "/", "//", "/." or "/tmp/..": a change to the root itself is
+    reported under the cleaned argument "/" (the only cleaned path that ends in a separator)."""
+    w = "w1"
+    a = {"abs": False, "c": ["FSROOT"], "raw": rnd.choice(["/", "//", "/.", "/tmp/..", "/./"])}
+    steps = [fs("fsroot", ()), new(w, rnd.choice([0, 0, 4])), {"s": "call", "w": w, "t": "t1", "op": "add", "arg": a}]
+    for _ in range(rnd.randint(1, 3)):
+        steps += [fs("chmodfsroot", ()), drain(w)]
+    steps += [call(w, "watchlist"), obs(w), {"s": "call", "w": w, "t": "t1", "op": "remove", "arg": a}, fs("chmodfsroot", ()), drain(w),
+              call(w, "watchlist"), call(w, "close"), drain(w), obs(w)]
+    return steps
+
+
 def fam_moves(rnd, i, depth=30):
     """Rename correlation: moves within / between watched directories, in from and out to
     unwatched places (leaving unmatched cookies behind), plain creates and hard links in between."""
@@ -959,6 +1032,13 @@ def fam_recurse(rnd, i):
         else:
             steps += [new(w, rnd.choice([0, 0, 8])), call(w, "add", ("r",), rnd.choice(["rel", "abs", "dot", "trail"]), rnd, recurse=True), drain(w)]
         dirs = [("r",)] + dirs
+    filewatch = None
+    if not two_roots and not cwdroot and len(dirs) >= 2 and rnd.random() < 0.25:
+        # a file inside the tree that is ALSO added on its own: when a directory above it is renamed its events, too, carry the
+        # new location
+        fd = rnd.choice(dirs[1:])
+        filewatch = fd + ("conf",)
+        steps += [fs("create", filewatch), drain(w), call(w, "add", filewatch, "rel"), fs("chmod", filewatch), drain(w)]
     if not two_roots and rnd.random() < 0.3:
         # a directory whose own name ends in \\... , added on its own (not recursively): its siblings are not watched by that
         steps += [fs("mkdir", ("q",)), fs("mkdir", ("q", "BS1")), fs("mkdir", ("q", "other")), call(w, "add", ("q", "BS1"), "rel"),
@@ -1003,6 +1083,9 @@ def fam_recurse(rnd, i):
                         b = np + (rnd.choice(["mv", "sub", "dir1"]) + str(cnt[0]),)
                         steps += [fs("rename", a, to=b), drain(w), fs("create", b + ("in",)), drain(w)]
                         dirs = [b + d[len(a):] if d[:len(a)] == a else d for d in dirs]
+                        if filewatch and filewatch[:len(a)] == a:
+                            filewatch = b + filewatch[len(a):]
+                            steps += [fs("chmod", filewatch), fs("write", filewatch), drain(w)]
                         continue
                 if rnd.random() < 0.12 and len(a) >= 2:
                     # renamed OVER an empty directory of the tree (rename(2) allows that): the victim's end must not take the
@@ -1011,6 +1094,9 @@ def fam_recurse(rnd, i):
                     cnt[0] += 1
                     steps += [fs("mkdir", victim), drain(w), fs("rename2", a, to=victim), drain(w), fs("create", victim + ("ov",)), drain(w), obs(w)]
                     dirs = [victim + d[len(a):] if d[:len(a)] == a else d for d in dirs]
+                    if filewatch and filewatch[:len(a)] == a:
+                        filewatch = victim + filewatch[len(a):]
+                        steps += [fs("chmod", filewatch), fs("write", filewatch), drain(w)]
                     continue
                 if rnd.random() < 0.12:
                     # moved away and back, and a new directory made under the intermediate name, before any of it is handled:
@@ -1027,6 +1113,9 @@ def fam_recurse(rnd, i):
                 else:
                     steps += [fs("rename", a, to=b), drain(w)]
                 dirs = [b + d[len(a):] if d[:len(a)] == a else d for d in dirs]
+                if filewatch and filewatch[:len(a)] == a:
+                    filewatch = b + filewatch[len(a):]
+                    steps += [fs("chmod", filewatch), fs("write", filewatch), drain(w)]
                 if rnd.random() < 0.4:             # a new directory under the old name
                     steps += [fs("mkdir", a), drain(w)]
                     dirs.append(a)
@@ -1045,6 +1134,8 @@ def fam_recurse(rnd, i):
         steps += [drain(w), fs("mkdir", ("r", "gone9")), obs(w), fs("rmdir", ("r", "gone9")), obs(w),
                   {"s": "call", "w": w, "t": "t1", "op": "remove", "arg": {"abs": False, "c": ["."]}, "recurse": True} if cwdroot else call(w, "remove", ("r",), "rel", recurse=True),
                   drain(w), obs(w), fs("create", ("r", "after")), drain(w)]
+    if filewatch and removed is None:
+        steps += [drain(w), fs("unlink", filewatch), drain(w), obs(w)]          # one Remove for it: its directory reports it
     if not two_roots and cwdroot and removed is None:
         steps += [drain(w), call(w, "watchlist"), {"s": "call", "w": w, "t": "t1", "op": "remove", "arg": {"abs": False, "c": ["."]}, "recurse": True},
                   drain(w), call(w, "watchlist"), obs(w)]
@@ -1621,7 +1712,7 @@ FAMS = {
     "cycle": fam_cycle, "newclose": fam_newclose, "overflow": fam_overflow, "moves": fam_moves, "multi": fam_multi,
     "absorb": fam_absorb, "withops": fam_withops, "repoint": fam_repoint, "stall": fam_stall, "spell": fam_spell,
     "endwatch": fam_endwatch, "paced": fam_paced, "ovfstall": fam_ovfstall, "ovflate": fam_ovflate,
-    "parmoves": fam_parmoves, "multix": fam_multix, "recurse": fam_recurse, "cwd": fam_cwd, "readfault": fam_readfault, "dselfskip": fam_dselfskip, "heldparent": fam_heldparent, "reops": fam_reops, "wlpark": fam_wlpark, "recerr": fam_recerr,
+    "parmoves": fam_parmoves, "multix": fam_multix, "recurse": fam_recurse, "cwd": fam_cwd, "readfault": fam_readfault, "dselfskip": fam_dselfskip, "heldparent": fam_heldparent, "reops": fam_reops, "rootwatch": fam_rootwatch, "slowpair": fam_slowpair, "capsweep": fam_capsweep, "wlpark": fam_wlpark, "recerr": fam_recerr,
     "kqdir": fam_kqdir, "kqsym": fam_kqsym, "kqburst": fam_kqburst, "kqcycle": fam_kqcycle, "kqfault": fam_kqfault, "kqdot": fam_kqdot, "kqseq": fam_kqseq, "kqkfault": fam_kqkfault, "kqnested": fam_kqnested,
 }
 
@@ -1663,6 +1754,8 @@ def main():
             kw["maxops"] = int(params["maxops"])
         if a.fam == "ovfstall" and "mode" in params:
             kw["mode"] = params["mode"]
+        if a.fam == "slowpair" and "ms" in params:
+            kw["ms"] = int(params["ms"])
         if a.fam == "moves" and "depth" in params:
             kw["depth"] = int(params["depth"])
         emit(idx, fn(rnd, idx, **kw))
